@@ -14,6 +14,11 @@ RESERVED = ['table', 'enum', 'ref', 'note', 'indexes', 'project', 'tablegroup', 
             'name', 'type', 'update', 'delete', 'color', 'headercolor']
 
 
+KW_PREFIXES = ['note', 'notes', 'indexes', 'index', 'ref', 'refs', 'table', 'tablegroup', 'enum', 'pk', 'pkey', 'unique', 'null', 'nullable',
+               'not', 'notnull', 'default', 'increment', 'primary', 'as', 'asof', 'project', 'name', 'type', 'update', 'delete', 'color',
+               'headercolor', 'true', 'false', 'hash', 'btree', 'cascade', 'restrict', 'set', 'no', 'Note', 'TABLE', 'Ref', 'AS', 'NULL']
+
+
 class Namer:
     """unique identifiers in several flavours"""
 
@@ -37,6 +42,9 @@ class Namer:
                 self.reserved_used.add(w)
                 return w
             f = 'bare'
+        if f == 'kwprefix':  # a plain word that starts with (or is) a DBML keyword; bare-legal, so it may be written unquoted
+            kw = self.rng.choice(KW_PREFIXES)
+            return kw + self.rng.choice(['', '_', 's_', 'x']) + str(self.n)
         if f == 'tok':      # substring-free unique token (digits are always followed by q)
             return base + 'q'
         if f == 'bare':
